@@ -1,4 +1,5 @@
 import DendroModel.Model.C05
+import DendroModel.Gen.C05Kernels
 import DendroModel.Theory.C15Build
 import DendroModel.Props.C01
 import DendroModel.Theory.Greedy
@@ -2436,8 +2437,9 @@ open DendroModel DendroModel.Hier DendroModel.C05.Aux
     drawn (so `encode_bipartitions` does not touch the seed), the record the driver builds lists every split once, and the
     splits are exactly the clades of a well-formed hierarchy over the tree's leaf set normalised on its lowest taxon bit `k`:
     the `hts`, `hk`, `hlow` hypotheses of `majority_consensus_unrooted_reaches` / `_exact`.
-    (`_partial`: seeds with two children, which the encoding first opens up, and unifurcating seeds are not covered.) -/
-theorem treeRecOf_unrooted_hts_partial (r : Option Bool) (w : Option Rat) (t : T) (hr : r ≠ some true)
+    (The special case of `treeRecOf_unrooted_hts` — which covers every drawing whose ENCODED seed has degree >= 3, i.e. everything
+    outside the known-finding class — kept with its own proof; formerly `…_partial`.) -/
+theorem treeRecOf_unrooted_hts_drawn (r : Option Bool) (w : Option Rat) (t : T) (hr : r ≠ some true)
     (h3 : 3 ≤ t.cs.length) (hg : Good (T.toH t)) :
     ∃ k, k ∈ bits (T.mask t) ∧ (∀ j, j < k → j ∉ bits (T.mask t))
       ∧ (treeRecOf r w t).rooted = false
@@ -2522,7 +2524,7 @@ end DendroModel.C05
 
 namespace DendroModel.C05
 open DendroModel DendroModel.Hier DendroModel.C05.Aux
-/-- hypotheses of `treeRecOf_unrooted_hts_partial`: the not-rooted tree (0,1,(2,3)) -/
+/-- hypotheses of `treeRecOf_unrooted_hts_drawn`: the not-rooted tree (0,1,(2,3)) -/
 example : (some false : Option Bool) ≠ some true
     ∧ 3 ≤ (T.node 0 none none none [.node 1 (some 0) none none [], .node 2 (some 1) none none [],
         .node 3 none none none [.node 4 (some 2) none none [], .node 5 (some 3) none none []]]).cs.length
@@ -3395,4 +3397,590 @@ example : (∀ t ∈ [{ exRec with weight := some (1 / 2) }, { exRec with weight
   · intro t ht; simp at ht; rcases ht with rfl | rfl <;> norm_num [wt]
   · norm_num [wt]
 
+end DendroModel.C05
+
+namespace DendroModel.C05.Aux
+open DendroModel DendroModel.Hier DendroModel.C05
+
+theorem absR_eq (x : Rat) : C05Kernels.ratAbs x = C04.absR x := rfl
+
+set_option linter.unusedSimpArgs false in
+/-- the keep test of the source, whatever the order of its operands, is the model's -/
+theorem keep_eq (mf : Option Rat) (f : Rat) :
+    C05Kernels.consensus_keep mf f
+      = (match mf with
+         | none => true
+         | some m => decide (f ≥ m) || (decide (C04.absR (m - 1) ≤ (1 : Rat) / 10000000) && decide (C04.absR (f - 1) ≤ (1 : Rat) / 10000000))) := by
+  cases mf with
+  | none => rfl
+  | some m =>
+    simp only [C05Kernels.consensus_keep, C05Kernels.almost_one, absR_eq]
+    by_cases h1 : f ≥ m <;> by_cases h2 : C04.absR (m - 1) ≤ (1 : Rat) / 10000000 <;>
+      by_cases h3 : C04.absR (f - 1) ≤ (1 : Rat) / 10000000 <;> simp [h1, h2, h3]
+
+theorem pop_fold (l : List Rat) : ∀ (n s ss : Rat),
+    l.foldl (fun a v => C05Kernels.pop_step a.1 a.2.1 a.2.2 v) (n, s, ss)
+      = (n + (l.length : Rat), s + l.sum, ss + (l.map (fun v => v * v)).sum) := by
+  induction l with
+  | nil => intro n s ss; simp
+  | cons v l ih =>
+    intro n s ss
+    rw [List.foldl_cons]
+    show List.foldl _ (n + 1, s + v, ss + v * v) l = _
+    rw [ih]
+    simp only [List.length_cons, List.sum_cons, List.map_cons, Nat.cast_add, Nat.cast_one]
+    refine Prod.ext ?_ (Prod.ext ?_ ?_) <;> simp only <;> ring
+
+theorem lookupIn_map_snd {α β : Type} (g : α → β) (d : List (Int × α)) (s : Int) :
+    lookupIn (d.map (fun p => (p.1, g p.2))) s = (lookupIn d s).map g := by
+  induction d with
+  | nil => simp [lookupIn]
+  | cons p d ih =>
+    unfold lookupIn at ih ⊢
+    simp only [List.map_cons, List.find?_cons]
+    by_cases h : p.1 == s
+    · simp [h]
+    · simp only [h]; exact ih
+
+/-- every entry of the length table of a counted distribution is non-empty -/
+def LensNE (d : List (Int × List Rat)) : Prop := ∀ p ∈ d, p.2 ≠ []
+
+theorem addLenRec_ne (d : List (Int × List Rat)) (k : Int) (x : Rat) (h : LensNE d) : LensNE (addLenRec d k x) := by
+  induction d with
+  | nil => intro p hp; simp [addLenRec] at hp; subst hp; simp
+  | cons q rest ih =>
+    intro p hp
+    simp only [addLenRec] at hp
+    split at hp
+    · rcases List.mem_cons.mp hp with rfl | hp
+      · simp
+      · exact h p (List.mem_cons_of_mem _ hp)
+    · rcases List.mem_cons.mp hp with rfl | hp
+      · exact h _ (List.mem_cons_self ..)
+      · exact ih (fun p hp => h p (List.mem_cons_of_mem _ hp)) p hp
+
+theorem fold_lens_ne : ∀ (ps : List (Int × Rat)) (d : List (Int × List Rat)), LensNE d →
+    LensNE (ps.foldl (fun d p => addLenRec d p.1 p.2) d)
+  | [], d, h => h
+  | p :: ps, d, h => by rw [List.foldl_cons]; exact fold_lens_ne ps _ (addLenRec_ne d p.1 p.2 h)
+
+theorem countAll_lens_ne (useW : Bool) (ts : List TreeRec) : LensNE (countAll useW ts).lengths := by
+  unfold countAll
+  have : ∀ (ts : List TreeRec) (sd : SD), LensNE sd.lengths → LensNE (ts.foldl countTree sd).lengths := by
+    intro ts
+    induction ts with
+    | nil => intro sd h; exact h
+    | cons t ts ih =>
+      intro sd h
+      rw [List.foldl_cons]
+      apply ih
+      simp only [countTree]
+      exact fold_lens_ne _ _ h
+  apply this
+  intro p hp; simp at hp
+
+theorem summaryTable_lookup (sd : SD) (h : LensNE sd.lengths) (s : Int) :
+    lookupIn (summaryTable sd) s = (lookupIn sd.lengths s).map stats := by
+  unfold summaryTable
+  have : sd.lengths.filter (fun p => !p.2.isEmpty) = sd.lengths := by
+    apply List.filter_eq_self.mpr
+    intro p hp
+    have := h p hp
+    cases hp2 : p.2 with
+    | nil => exact absurd hp2 this
+    | cons _ _ => simp
+  rw [this]
+  exact lookupIn_map_snd stats sd.lengths s
+
+end DendroModel.C05.Aux
+
+namespace DendroModel.C05
+open DendroModel DendroModel.Hier DendroModel.C05.Aux
+
+/-! ## Tie A — the kernels regenerated from the current source (`Gen/C05Kernels.lean`) are the model's -/
+
+/-- `count_splits_on_tree`: the weight a tree is counted with -/
+theorem kernel_weight (sd : SD) (t : TreeRec) : weightOf sd t = C05Kernels.weight_to_use t.weight sd.useWeights := by
+  unfold weightOf C05Kernels.weight_to_use
+  cases t.weight <;> simp
+
+/-- `calc_normalization_weight` and the value `calc_freqs` stores for a split -/
+theorem kernel_freq (sd : SD) (s : Int) :
+    normW sd = C05Kernels.calc_normalization_weight sd.sumW sd.total
+    ∧ freq sd s = (match countOf sd.counts s with
+        | none => 0
+        | some c => C05Kernels.calc_freqs_value sd.total c (C05Kernels.calc_normalization_weight sd.sumW sd.total)) := by
+  have h1 : normW sd = C05Kernels.calc_normalization_weight sd.sumW sd.total := by
+    unfold normW C05Kernels.calc_normalization_weight
+    by_cases h : sd.sumW = 0 <;> simp [h]
+  refine ⟨h1, ?_⟩
+  unfold freq C05Kernels.calc_freqs_value
+  rw [← h1]
+  cases countOf sd.counts s with
+  | none => rfl
+  | some c =>
+    by_cases h : sd.total = 0 <;> simp [h]
+
+/-- the caches: when each table is recalculated, what `calc_freqs` stamps and drops, and that both summary tables are tested
+    against the one counter `_trees_counted_for_summaries` -/
+theorem kernel_cache (c : Cached) :
+    c.getFreqs.1 = (if C05Kernels.freqs_stale c.freqs.isSome c.countedForFreqs c.sd.total then c.calcFreqs else c)
+    ∧ c.getSummaries.1 = (if C05Kernels.length_summaries_stale c.summaries.isSome c.countedForSummaries c.sd.total
+                          then { c with summaries := some (summaryTable c.sd) } else c)
+    ∧ c.getAges = (if C05Kernels.age_summaries_stale c.ages.isSome c.countedForSummaries c.sd.total
+                          then { c with ages := some () } else c)
+    ∧ C05Kernels.calc_freqs_stamps = [("_split_edge_length_summaries", "None"), ("_split_node_age_summaries", "None"),
+                                       ("_trees_counted_for_freqs", "total_trees_counted")]
+    ∧ C05Kernels.freqs_stale_counter = "_trees_counted_for_freqs"
+    ∧ C05Kernels.length_summaries_stale_counter = "_trees_counted_for_summaries"
+    ∧ C05Kernels.age_summaries_stale_counter = "_trees_counted_for_summaries"
+    ∧ C05Kernels.freqs_stale_recalc = ["self.calc_freqs"]
+    ∧ C05Kernels.length_summaries_stale_recalc = ["self.calc_split_edge_length_summaries"]
+    ∧ C05Kernels.age_summaries_stale_recalc = ["self.calc_split_node_age_summaries"] := by
+  refine ⟨?_, ?_, ?_, by decide, by decide, by decide, by decide, by decide, by decide, by decide⟩
+  · unfold Cached.getFreqs C05Kernels.freqs_stale
+    cases hf : c.freqs with
+    | none => simp
+    | some tbl =>
+      by_cases h : c.countedForFreqs = c.sd.total <;> simp [h]
+  · unfold Cached.getSummaries C05Kernels.length_summaries_stale
+    cases hf : c.summaries with
+    | none => simp
+    | some tbl =>
+      by_cases h : c.countedForSummaries = c.sd.total <;> simp [h]
+  · unfold Cached.getAges C05Kernels.age_summaries_stale
+    cases hf : c.ages with
+    | none => simp
+    | some tbl =>
+      by_cases h : c.countedForSummaries = c.sd.total <;> simp [h]
+
+set_option linter.unnecessarySeqFocus false in
+/-- `consensus_tree`: the keep test (`min_freq is None`, `>=`, the `_almost_one` clause with its 1e-7), pairs `(freq, split)`
+    sorted with `reverse=True`, the split projected -/
+theorem kernel_candidates (sd : SD) (mf : Option Rat) :
+    candidates sd mf
+      = (sortDesc ((sd.counts.filter (fun p => C05Kernels.consensus_keep mf (freq sd p.1))).map (fun p => (freq sd p.1, p.1)))).map (·.2)
+    ∧ C05Kernels.consensus_key_freq_pos = 0 ∧ C05Kernels.consensus_sort_reverse = true := by
+  refine ⟨?_, rfl, rfl⟩
+  simp only [keep_eq] <;> rfl
+
+/-- the default threshold `constants.GREATER_THAN_HALF` of every consensus / collapse entry point: at least one half, at most
+    1e-15 above it, and outside the tolerance clause — so a default-threshold consensus admits exactly the splits of frequency
+    `≥ greater_than_half` (`candidates_threshold`) and never one below one half -/
+theorem kernel_default_threshold :
+    (1 : Rat) / 2 ≤ C05Kernels.greater_than_half ∧ C05Kernels.greater_than_half ≤ 1 / 2 + 1 / 1000000000000000
+    ∧ ¬ C04.absR (C05Kernels.greater_than_half - 1) ≤ (1 : Rat) / 10000000
+    ∧ C05Kernels.default_use_tree_weights = true := by
+  refine ⟨?_, ?_, ?_, rfl⟩ <;> norm_num [C05Kernels.greater_than_half, C04.absR]
+
+/-- `collapse_edges_with_less_than_minimum_support`: for a positive threshold the node test of the code (absent from the table, or
+    frequency `<` threshold) is the model's `freq < threshold`; the two rooting refusals are the model's -/
+theorem kernel_collapse (sd : SD) (mf : Rat) (s : Int) (r : Option Bool) (h : 0 < mf) :
+    C05Kernels.collapse_flag (countOf sd.counts s).isSome (freq sd s) mf = decide (freq sd s < mf)
+    ∧ collapseRefuses sd r = C05Kernels.collapse_refuses (r == some true)
+        (C05Kernels.all_rooted (sd.rootings.contains true) (sd.rootings.contains false) sd.rootings.length)
+        (C05Kernels.none_rooted (sd.rootings.contains true) (sd.rootings.contains false) sd.rootings.length) := by
+  constructor
+  · unfold C05Kernels.collapse_flag freq
+    cases countOf sd.counts s with
+    | none => simp [h]
+    | some c => simp
+  · unfold collapseRefuses C05Kernels.collapse_refuses allRooted noneRooted C05Kernels.all_rooted C05Kernels.none_rooted
+    by_cases hl : sd.rootings.length = 1 <;> simp [hl]
+
+/-- which splits enter a tree's score, when the maximiser moves (strictly better only: the first maximum stays), and that only the
+    product skips zero supports -/
+theorem kernel_scores (incl : Bool) (t : TreeRec) (s : Int) (best y : Rat) (bi i : Nat) (ys : List Rat) :
+    scored incl t s = C05Kernels.sum_scored incl s t.leafset (C01.isTrivial s t.leafset)
+    ∧ scored incl t s = C05Kernels.prod_scored incl s t.leafset (C01.isTrivial s t.leafset)
+    ∧ argmaxFirst.go best bi i (y :: ys)
+        = (if C05Kernels.sum_better (some best) y then argmaxFirst.go y i (i + 1) ys else argmaxFirst.go best bi (i + 1) ys)
+    ∧ C05Kernels.prod_better = C05Kernels.sum_better
+    ∧ C05Kernels.sum_better none y = true
+    ∧ C05Kernels.sum_skips_zero = false ∧ C05Kernels.prod_skips_zero = true
+    ∧ C05Kernels.sum_accumulates = "id" ∧ C05Kernels.prod_accumulates = "log" := by
+  refine ⟨?_, ?_, ?_, ?_, rfl, rfl, rfl, by decide, by decide⟩
+  · rfl
+  · rfl
+  · simp [argmaxFirst.go, C05Kernels.sum_better]
+  · funext a b; cases a <;> rfl
+
+/-- the summariser: percentage factor, the defaults `configure` restores on every call, no-data values, the minimum-length clamp -/
+theorem kernel_summarizer (sd : SD) (pct : Bool) (s : Int) (f : Stats → Rat) (m x : Rat) :
+    supportOf sd pct s = (if pct then C05Kernels.support_percent (freq sd s) else freq sd s)
+    ∧ summaryField sd s f = ((lookupIn (summaryTable sd) s).map f).getD C05Kernels.no_data_length_mean
+    ∧ C05Kernels.no_data_length_median = C05Kernels.no_data_length_mean
+    ∧ clampLen (some m) (some x) = (if C05Kernels.clamp_applies x m then some m else some x)
+    ∧ ({} : SummOpts).decimals = C05Kernels.default_support_label_decimals
+    ∧ ({} : SummOpts).pct = C05Kernels.default_support_as_percentages
+    ∧ ({} : SummOpts).label = C05Kernels.default_set_support_as_node_label
+    ∧ (({} : SummOpts).mode = .keep ∧ C05Kernels.default_set_edge_lengths_is_none = true)
+    ∧ (({} : SummOpts).minLen = none ∧ C05Kernels.default_minimum_edge_length_is_none = true)
+    ∧ C05Kernels.default_add_support_as_node_attribute = true ∧ C05Kernels.label_is_fixed_point = true := by
+  refine ⟨?_, rfl, rfl, ?_, rfl, rfl, rfl, ⟨rfl, rfl⟩, ⟨rfl, rfl⟩, rfl, rfl⟩
+  · unfold supportOf C05Kernels.support_percent; rfl
+  · unfold clampLen C05Kernels.clamp_applies; simp
+
+/-- `statistics._mean_and_variance_pop_n` / `mean_and_sample_variance`: the one-pass accumulators give the model's mean and variance -/
+theorem kernel_stats (l : List Rat) (hl : l ≠ []) :
+    let acc := l.foldl (fun a v => C05Kernels.pop_step a.1 a.2.1 a.2.2 v) ((0 : Rat), (0 : Rat), (0 : Rat))
+    acc.1 = (l.length : Rat)
+    ∧ (stats l).mean = C05Kernels.pop_mean acc.1 acc.2.1 acc.2.2
+    ∧ (stats l).var = C05Kernels.samp_var acc.1 (C05Kernels.pop_var acc.1 acc.2.1 acc.2.2) := by
+  intro acc
+  have hacc : acc = ((l.length : Rat), l.sum, (l.map (fun v => v * v)).sum) := by
+    show l.foldl _ _ = _
+    rw [pop_fold]; simp
+  rw [hacc]
+  refine ⟨rfl, ?_, ?_⟩
+  · simp [stats, mean, C05Kernels.pop_mean]
+  · simp only [stats, C05Kernels.samp_var, C05Kernels.pop_var, sampleVar]
+    have hpos : 1 ≤ l.length := by
+      cases l with
+      | nil => exact absurd rfl hl
+      | cons _ _ => simp
+    by_cases h1 : l.length = 1
+    · simp [h1]
+    · have h2 : 2 ≤ l.length := by omega
+      have h3 : ¬ ((l.length : Rat) = 1) := by
+        intro e; exact h1 (by exact_mod_cast e)
+      simp [h2, h1]
+
+/-- `statistics.median`: parity test and index arithmetic (`int(size/2)` truncation) are the model's -/
+theorem kernel_median (l : List Rat) :
+    median l = (let s := sortAsc l
+                let n : Int := (s.length : Int)
+                if C05Kernels.median_is_odd n then s.getD (C05Kernels.median_idx n).toNat 0
+                else C05Kernels.median_combine (s.getD (C05Kernels.median_idx1 n).toNat 0) (s.getD (C05Kernels.median_idx2 n).toNat 0)) := by
+  simp only [median, C05Kernels.median_is_odd, C05Kernels.median_idx, C05Kernels.median_idx1, C05Kernels.median_idx2,
+    C05Kernels.median_combine]
+  generalize (sortAsc l).length = n
+  have e1 : Int.fmod (n : Int) 2 = ((n % 2 : Nat) : Int) := by
+    rw [Int.fmod_eq_emod_of_nonneg _ (by norm_num)]; omega
+  have e2 : (Int.tdiv ((n : Int) - 1) 2).toNat = (n - 1) / 2 := by
+    rcases Nat.eq_zero_or_pos n with rfl | hn
+    · simp
+    · rw [Int.tdiv_eq_ediv_of_nonneg (by omega)]; omega
+  have e3 : (Int.tdiv (n : Int) 2).toNat = n / 2 := by
+    rw [Int.tdiv_eq_ediv_of_nonneg (by omega)]; omega
+  have e4 : (Int.tdiv (n : Int) 2 - 1).toNat = n / 2 - 1 := by
+    rw [Int.tdiv_eq_ediv_of_nonneg (by omega)]; omega
+  simp only [e1, e2, e3, e4]
+  by_cases h : n % 2 = 1
+  · simp [h]
+  · have : ¬ ((n : Int) % 2 = 1) := by omega
+    simp [h, this]
+
+/-! ## The annotation step -/
+
+/-- **Nearest integer, ties to even** — the scaled integer behind a support label: at most one half away, and exactly one half
+    away only from an even result. -/
+theorem roundHalfEven_spec (q : Rat) :
+    |((roundHalfEven q : Int) : Rat) - q| ≤ 1 / 2
+    ∧ (|((roundHalfEven q : Int) : Rat) - q| = 1 / 2 → roundHalfEven q % 2 = 0) := by
+  have hd : (0 : Int) < (q.den : Int) := by exact_mod_cast q.den_pos
+  have hdq : (0 : Rat) < (q.den : Rat) := by exact_mod_cast q.den_pos
+  set f := q.num / (q.den : Int) with hf
+  set r := q.num % (q.den : Int) with hr
+  have hr0 : 0 ≤ r := Int.emod_nonneg _ (ne_of_gt hd)
+  have hr1 : r < (q.den : Int) := Int.emod_lt_of_pos _ hd
+  have hnum : q.num = (q.den : Int) * f + r := (Int.mul_ediv_add_emod q.num q.den).symm
+  have hq : q = (f : Rat) + (r : Rat) / (q.den : Rat) := by
+    have : (q.num : Rat) = (q.den : Rat) * f + r := by exact_mod_cast hnum
+    calc q = (q.num : Rat) / (q.den : Rat) := (Rat.num_div_den q).symm
+      _ = ((q.den : Rat) * f + r) / (q.den : Rat) := by rw [this]
+      _ = (f : Rat) + (r : Rat) / (q.den : Rat) := by field_simp
+  have hr0' : (0 : Rat) ≤ (r : Rat) / q.den := by
+    apply div_nonneg _ hdq.le; exact_mod_cast hr0
+  unfold roundHalfEven
+  simp only [← hf, ← hr]
+  by_cases c1 : 2 * r < (q.den : Int)
+  · simp only [c1, if_true]
+    have : (r : Rat) / q.den < 1 / 2 := by
+      rw [div_lt_iff₀ hdq]
+      have : ((2 * r : Int) : Rat) < ((q.den : Int) : Rat) := by exact_mod_cast c1
+      push_cast at this; linarith
+    constructor
+    · rw [abs_le]; constructor <;> linarith [hq]
+    · intro habs
+      rw [abs_eq (by norm_num)] at habs
+      rcases habs with e | e <;> linarith [hq]
+  · simp only [c1, if_false]
+    by_cases c2 : 2 * r > (q.den : Int)
+    · simp only [c2, if_true]
+      have h1 : (1 : Rat) / 2 < (r : Rat) / q.den := by
+        rw [lt_div_iff₀ hdq]
+        have : ((q.den : Int) : Rat) < ((2 * r : Int) : Rat) := by exact_mod_cast c2
+        push_cast at this; linarith
+      have h2 : (r : Rat) / q.den < 1 := by
+        rw [div_lt_one hdq]; exact_mod_cast hr1
+      constructor
+      · rw [abs_le]; push_cast; constructor <;> linarith [hq]
+      · intro habs
+        rw [abs_eq (by norm_num)] at habs
+        push_cast at habs
+        rcases habs with e | e <;> linarith [hq]
+    · simp only [c2, if_false]
+      have heq : 2 * r = (q.den : Int) := by omega
+      have h1 : (r : Rat) / q.den = 1 / 2 := by
+        rw [div_eq_iff (ne_of_gt hdq)]
+        have : ((2 * r : Int) : Rat) = ((q.den : Int) : Rat) := by exact_mod_cast heq
+        push_cast at this; linarith
+      by_cases c3 : f % 2 = 0
+      · have c3' : (f % 2 == 0) = true := by simpa using c3
+        simp only [c3', if_true]
+        constructor
+        · rw [abs_le]; constructor <;> linarith [hq]
+        · intro _; exact c3
+      · have c3' : (f % 2 == 0) = false := by simpa using c3
+        simp only [c3', Bool.false_eq_true, if_false]
+        constructor
+        · rw [abs_le]; push_cast; constructor <;> linarith [hq]
+        · intro _; omega
+
+/-- **What one summarising call writes.**  When `annotate` answers, it decorates exactly the nodes of the encoded target, in
+    pre-order; every node's support is the frequency of its own split (times 100 when percentages are requested; 0 for a split in no
+    tree, `freq_absent`); a label is written iff requested; the default mode leaves the length alone, "support" writes the support,
+    "clear" removes the length, and the length modes write the mean / median of the split's summarised values — 0 when the split has
+    none — each raised to `minimum_edge_length` when one is given. -/
+theorem annotate_spec (sd : SD) (o : SummOpts) (r : Option Bool) (t : T) (anns : List NodeAnn)
+    (h : annotate sd o r t = some anns) :
+    let t2 := C01.encodeTree r true true t
+    anns.map (·.id) = t2.nodes.map T.id
+    ∧ anns.length = t2.nodes.length
+    ∧ ∀ i (hi : i < anns.length) (hj : i < t2.nodes.length),
+        let a := anns[i]
+        let nd := t2.nodes[i]
+        a.id = nd.id
+        ∧ a.split = C01.splitOf (r == some true) t2.mask nd.mask
+        ∧ a.support = (if o.pct then freq sd a.split * 100 else freq sd a.split)
+        ∧ (a.label.isSome ↔ o.label = true)
+        ∧ (o.mode = .keep → a.length = nd.len.map C04.fracToRat)
+        ∧ (o.mode = .clear → a.length = none)
+        ∧ (o.mode = .support → a.length = clampLen o.minLen (some a.support))
+        ∧ (o.mode = .meanLen → a.length = clampLen o.minLen (some (((lookupIn (summaryTable sd) a.split).map (·.mean)).getD 0)))
+        ∧ (o.mode = .medianLen → a.length = clampLen o.minLen (some (((lookupIn (summaryTable sd) a.split).map (·.median)).getD 0)))
+        ∧ (a.summary = if (summaryTable sd).isEmpty then none else some (lookupIn (summaryTable sd) a.split)) := by
+  intro t2
+  unfold annotate at h
+  simp only at h
+  split at h
+  · cases h
+  · simp only [Option.some.injEq] at h
+    subst h
+    refine ⟨by rw [List.map_map]; rfl, by rw [List.length_map], ?_⟩
+    intro i hi hj
+    simp only [List.getElem_map]
+    refine ⟨rfl, rfl, rfl, ?_, ?_, ?_, ?_, ?_, ?_, rfl⟩
+    · simp only [annotNode]; cases o.label <;> simp
+    all_goals (intro hm; simp only [annotNode, newLength, hm, summaryField]; try rfl)
+
+/-- **Summarised lengths are those of the input trees.**  On a distribution built by counting `ts`, the length summary looked up
+    for a split is the statistics (`stats_spec`) of exactly that split's values over the counted trees (`lengths_spec`), and there is
+    none when no tree carries the split — so with `annotate_spec` the "mean-length" / "median-length" modes write the mean / median of the
+    split's values over the input trees, and 0 on an edge whose split occurs in no tree. -/
+theorem summary_of_counted (useW : Bool) (ts : List TreeRec) (s : Int) :
+    lookupIn (summaryTable (countAll useW ts)) s
+      = if ts.flatMap (valsOf s) = [] then none else some (stats (ts.flatMap (valsOf s))) := by
+  rw [summaryTable_lookup _ (countAll_lens_ne useW ts), lengths_spec]
+  split <;> simp
+
+/-- the refusals of the call: only the two length modes, and only when no length was ever collected -/
+theorem annotate_answers_iff (sd : SD) (o : SummOpts) (r : Option Bool) (t : T) :
+    (annotate sd o r t).isSome ↔ ¬ ((o.mode = .meanLen ∨ o.mode = .medianLen) ∧ summaryTable sd = []) := by
+  unfold annotate annotRefuses
+  simp only
+  cases hm : o.mode <;> cases hs : summaryTable sd <;> simp
+
+/-- the whole collapse call: it answers iff the rooting of the target fits the rootings counted and no leaf edge is weak; when it
+    answers, `collapse_removes_exactly` / `collapse_parsed_exact` describe the result -/
+theorem collapseCall_spec (sd : SD) (mf : Rat) (r : Option Bool) (t t' : T) :
+    collapseCall sd mf r t = some t' ↔ (collapseRefuses sd r = false ∧ collapseBelow sd mf r t = some t') := by
+  unfold collapseCall
+  cases h : collapseRefuses sd r <;> simp
+
+/-- a target with the rooting of a non-empty sample of uniformly flagged trees is never refused on rooting grounds; a rooted target
+    against not-rooted samples and a not-rooted target against rooted samples always are -/
+theorem collapseRefuses_spec (useW : Bool) (ts : List TreeRec) (hne : ts ≠ []) (r : Option Bool) (b : Bool)
+    (hall : ∀ t ∈ ts, t.rooted = b) :
+    collapseRefuses (countAll useW ts) r = ((r == some true) != b) := by
+  obtain ⟨hnd, hmem⟩ := rootings_fold ts { useWeights := useW } (by simp)
+  obtain ⟨t0, ht0⟩ := List.exists_mem_of_ne_nil ts hne
+  have hT : true ∈ (countAll useW ts).rootings ↔ b = true := by
+    unfold countAll; rw [hmem true]
+    simp only [List.not_mem_nil, false_or]
+    constructor
+    · rintro ⟨t, ht, e⟩; rw [← hall t ht]; exact e
+    · intro e; exact ⟨t0, ht0, by rw [hall t0 ht0]; exact e⟩
+  have hF : false ∈ (countAll useW ts).rootings ↔ b = false := by
+    unfold countAll; rw [hmem false]
+    simp only [List.not_mem_nil, false_or]
+    constructor
+    · rintro ⟨t, ht, e⟩; rw [← hall t ht]; exact e
+    · intro e; exact ⟨t0, ht0, by rw [hall t0 ht0]; exact e⟩
+  have hnd' : (countAll useW ts).rootings.Nodup := hnd
+  unfold collapseRefuses allRooted noneRooted
+  cases b with
+  | true =>
+    have hR : (countAll useW ts).rootings = [true] :=
+      (bool_list_eq_true _ hnd').mpr ⟨hT.mpr rfl, fun hf => by simpa using hF.mp hf⟩
+    rw [hR]; cases r with
+    | none => rfl
+    | some x => cases x <;> rfl
+  | false =>
+    have hc : (countAll useW ts).rootings.contains true = false := by
+      rw [← Bool.not_eq_true, List.contains_iff_mem]; intro hm; simpa using hT.mp hm
+    rw [hc]; cases r with
+    | none => rfl
+    | some x => cases x <;> rfl
+
+end DendroModel.C05
+
+namespace DendroModel.C05
+open DendroModel DendroModel.Hier DendroModel.C05.Aux
+/-- the record of (0,(1,2)) with lengths, counted twice with different lengths: the concrete distribution the examples below speak about -/
+def exRecL (a : Rat) : TreeRec := { exRec with lens := [1, 1, 1, a, 0] }
+/-- hypotheses of `kernel_collapse` / `collapseRefuses_spec`: a positive threshold, a non-empty uniformly rooted sample — and what
+    the theorem then says: a not-rooted target is refused, a rooted one is not -/
+example : (0 : Rat) < 1 / 2 ∧ [exRec] ≠ [] ∧ (∀ t ∈ [exRec], t.rooted = true)
+    ∧ collapseRefuses (countAll false [exRec]) (some false) = true ∧ collapseRefuses (countAll false [exRec]) (some true) = false := by
+  refine ⟨by norm_num, by simp, by simp [exRec], ?_, ?_⟩
+  · rw [collapseRefuses_spec false [exRec] (by simp) _ true (by simp [exRec])]; rfl
+  · rw [collapseRefuses_spec false [exRec] (by simp) _ true (by simp [exRec])]; rfl
+/-- `summary_of_counted` on a concrete sample: split 6 carries the lengths 2 and 4 in the two trees, so its summary is that of [2, 4]
+    (mean 3, median of an even count 3) -/
+example : lookupIn (summaryTable (countAll false [exRecL 2, exRecL 4])) 6 = some (stats [2, 4])
+    ∧ (stats [2, 4]).mean = 3 ∧ (stats [2, 4]).median = 3 := by
+  refine ⟨?_, by norm_num [stats, mean], by norm_num [stats, median, sortAsc, insertAsc]⟩
+  rw [summary_of_counted]; simp [valsOf, exRecL, exRec]
+/-- `annotate` answers in a length mode on that sample (hypothesis of `annotate_spec`), and refuses on the empty distribution -/
+example : (annotate (countAll false [exRecL 2, exRecL 4]) { mode := .meanLen } (some true) exT).isSome
+    ∧ annotate { useWeights := false } { mode := .meanLen } (some true) exT = none := by
+  constructor
+  · rw [annotate_answers_iff]
+    rintro ⟨_, he⟩
+    have h := (summary_of_counted false [exRecL 2, exRecL 4] 6)
+    rw [he] at h
+    simp [lookupIn, valsOf, exRecL, exRec] at h
+  · simp [annotate, annotRefuses, summaryTable]
+/-- `roundHalfEven_spec` on ties: 1/32 at four places is 312.5 -> 312, and 3/2 -> 2 -/
+example : roundHalfEven ((1 : Rat) / 32 * 10 ^ 4) = 312 ∧ roundHalfEven ((3 : Rat) / 2) = 2 := by
+  constructor <;> (unfold roundHalfEven; norm_num)
+/-- `kernel_stats` / `kernel_median` hypotheses -/
+example : ([2, 4] : List Rat) ≠ [] := by simp
+end DendroModel.C05
+namespace DendroModel.C05
+open DendroModel DendroModel.Hier DendroModel.C05.Aux
+
+/-- **The not-rooted class the bridge does not cover is exactly the double count.**  For a well-formed not-rooted tree whose ENCODED
+    seed has exactly two children (a two-leaf tree, or a unifurcating seed above a bifurcation: the known finding "basal bifurcation
+    survives the encoding"), the two basal edges carry the same normalised split — each side is the complement of the other — so the
+    record the driver builds lists that split twice: `splits.Nodup`, a hypothesis of every majority theorem, fails, and `freq_spec`
+    (which counts occurrences) describes what the code reports there.  Together with `treeRecOf_unrooted_hts` (encoded seed of degree
+    ≥ 3) this settles every not-rooted drawing with at least two leaves. -/
+theorem treeRecOf_unrooted_basal_dup (r : Option Bool) (w : Option Rat) (t c1 c2 : T) (hr : r ≠ some true) (hg : Good (T.toH t))
+    (h2 : (C01.encodeTree r true true t).cs = [c1, c2]) :
+    C01.splitOf false (T.mask t) (T.mask c1) = C01.splitOf false (T.mask t) (T.mask c2)
+    ∧ (treeRecOf r w t).splits.count (C01.splitOf false (T.mask t) (T.mask c1)) ≥ 2
+    ∧ ¬ (treeRecOf r w t).splits.Nodup := by
+  have hrf : (r == some true) = false := by
+    cases r with
+    | none => rfl
+    | some b => cases b <;> simp_all
+  obtain ⟨u, hu, hgu⟩ : ∃ u : T, C01.encodeTree r true true t = u.sup ∧ Good (T.toH u) := by
+    unfold C01.encodeTree
+    by_cases hc : t.cs.length = 2
+    · exact ⟨t.collapseBasal, by simp [hc, hr], collapseBasal_good t hg⟩
+    · exact ⟨t, by simp [hc], hg⟩
+  have hmt : T.mask (C01.encodeTree r true true t) = T.mask t := C01.encode_keeps_leafset r true true t
+  have hgs : Good (T.toH (C01.encodeTree r true true t)) := by rw [hu, C01.Aux.sup_toH]; exact Hier.sup_good _ hgu
+  have hne2 : (C01.encodeTree r true true t).cs ≠ [] := by rw [h2]; simp
+  have hnode := toH_of_cs hne2
+  have hgds : GoodL (T.toHL (C01.encodeTree r true true t).cs) := by rw [hnode] at hgs; simpa [Good] using hgs
+  rw [h2] at hgds
+  simp only [T.toHL, GoodL, Hier.maskL, C01.Aux.toH_mask, Nat.or_zero] at hgds
+  obtain ⟨_, h10, hdisj, _, h20, _, _⟩ := hgds
+  have hL : T.mask t = T.mask c1 ||| T.mask c2 := by
+    rw [← hmt]
+    rw [mask_eq_of_cs _ hne2, h2]
+    simp [T.maskL]
+  have hL0 : T.mask t ≠ 0 := by
+    rw [hL]; intro hz
+    exact h10 (Nat.or_eq_zero_iff.mp hz).1
+  obtain ⟨k, hk, hkL, hlow⟩ := C01.lsb_spec (T.mask t) (Nat.pos_of_ne_zero hL0)
+  -- bits of the two sides partition the leaf set
+  have hb : bits (T.mask t) = bits (T.mask c1) ∪ bits (T.mask c2) := by rw [hL, bits_or]
+  have hd : Disjoint (bits (T.mask c1)) (bits (T.mask c2)) := by
+    rw [Set.disjoint_iff_inter_eq_empty, ← bits_and, hdisj, bits_zero]
+  have hkmem : k ∈ bits (T.mask t) := by simpa [bits] using hkL
+  have heq : Hier.norm (T.mask t) (1 <<< k) (T.mask c1) = Hier.norm (T.mask t) (1 <<< k) (T.mask c2) := by
+    apply bits_inj
+    rw [hb] at hkmem
+    rcases (Set.mem_union _ _ _).mp hkmem with h1 | h1
+    · have h2' : k ∉ bits (T.mask c2) := fun h => (Set.disjoint_left.mp hd) h1 h
+      rw [bits_norm_in _ _ _ h1, bits_norm_out _ _ _ h2', hb]
+      ext x; simp only [Set.mem_sdiff, Set.mem_union, Set.mem_inter_iff]
+      constructor
+      · rintro ⟨hx | hx, hn⟩
+        · exact absurd hx hn
+        · exact ⟨hx, Or.inr hx⟩
+      · rintro ⟨hx, _⟩
+        exact ⟨Or.inr hx, fun h => (Set.disjoint_left.mp hd) h hx⟩
+    · have h1' : k ∉ bits (T.mask c1) := fun h => (Set.disjoint_left.mp hd) h h1
+      rw [bits_norm_out _ _ _ h1', bits_norm_in _ _ _ h1, hb]
+      ext x; simp only [Set.mem_sdiff, Set.mem_union, Set.mem_inter_iff]
+      constructor
+      · rintro ⟨hx, _⟩
+        exact ⟨Or.inl hx, fun h => (Set.disjoint_left.mp hd) hx h⟩
+      · rintro ⟨hx | hx, hn⟩
+        · exact ⟨hx, Or.inl hx⟩
+        · exact absurd hx hn
+  have hsp : C01.splitOf false (T.mask t) (T.mask c1) = C01.splitOf false (T.mask t) (T.mask c2) := by
+    rw [C01.split_spec, C01.split_spec, hk]
+    simp only [Bool.false_eq_true, if_false]
+    exact_mod_cast heq
+  have hs : (treeRecOf r w t).splits
+      = ((C01.encodeTree r true true t).masksPost).map (fun (m : Nat) => C01.splitOf false (T.mask t) m) := by
+    show ((C04.edgeRecs r t).map (·.split)) = _
+    unfold C04.edgeRecs
+    simp only [List.map_map]
+    rw [← edgesPost_fst true (C01.encodeTree r true true t), List.map_map]
+    apply List.map_congr_left
+    intro e _
+    simp only [Function.comp, hrf, hmt]
+  have hpost : ∀ c : T, ∃ pre, T.masksPost c = pre ++ [T.mask c] := by
+    intro c; cases c with
+    | node i x l s cs => exact ⟨T.masksPostL cs, by simp [T.masksPost]⟩
+  obtain ⟨p1, hp1⟩ := hpost c1
+  obtain ⟨p2, hp2⟩ := hpost c2
+  have hlist : (C01.encodeTree r true true t).masksPost = p1 ++ [T.mask c1] ++ (p2 ++ [T.mask c2]) ++ [T.mask t] := by
+    cases he : C01.encodeTree r true true t with
+    | node i x l s cs =>
+      rw [he] at h2 hmt
+      simp only [T.cs] at h2
+      subst h2
+      simp only [T.masksPost, T.masksPostL, hp1, hp2, List.append_nil]
+      rw [← hmt]
+  have hcount : (treeRecOf r w t).splits.count (C01.splitOf false (T.mask t) (T.mask c1)) ≥ 2 := by
+    rw [hs, hlist]
+    simp only [List.map_append, List.map_cons, List.map_nil, List.count_append, List.count_cons, List.count_nil]
+    rw [← hsp]
+    simp only [beq_self_eq_true, if_true]
+    omega
+  refine ⟨hsp, hcount, ?_⟩
+  intro hnd
+  have := List.nodup_iff_count_le_one.mp hnd (C01.splitOf false (T.mask t) (T.mask c1))
+  omega
+
+end DendroModel.C05
+
+namespace DendroModel.C05
+open DendroModel DendroModel.Hier DendroModel.C05.Aux
+/-- hypotheses of `treeRecOf_unrooted_basal_dup`: the not-rooted two-leaf tree (0,1), whose seed stays a bifurcation -/
+example : (some false : Option Bool) ≠ some true
+    ∧ Good (T.toH (T.node 0 none none none [.node 1 (some 0) none none [], .node 2 (some 1) none none []]))
+    ∧ (C01.encodeTree (some false) true true (T.node 0 none none none [.node 1 (some 0) none none [], .node 2 (some 1) none none []])).cs
+        = [.node 1 (some 0) none none [], .node 2 (some 1) none none []] := by
+  refine ⟨by simp, by simp [T.toH, T.toHL, Good, GoodL, Hier.mask, Hier.maskL], ?_⟩
+  simp [C01.encodeTree, T.cs, T.collapseBasal, T.sup, T.supL, T.withLen, tryAdd, addLen, T.len]
 end DendroModel.C05
